@@ -36,7 +36,10 @@ def pick_alphabet(encs: typing.Sequence[bytes], mb: int, n: int) -> typing.List[
     if len(u) > n:
         idx = sorted({0, len(u) - 1} | {round(i * (len(u) - 1) / (n - 1)) for i in range(n)})
         u = [u[i] for i in idx][:n]
-    return u + [b"\xff" * max(1, mb)]
+    longest = max(u, key=len) if u else b""
+    trunc = [longest[: max(1, len(longest) // 2)]] if len(longest) >= 2 else []
+    # + one truncated encoding (implicit zero extension into a reused object) + one all-ones string (usually invalid)
+    return u + trunc + [b"\xff" * max(1, mb)]
 
 
 def invalid_objects(t: pydsdl.CompositeType) -> typing.List[typing.Tuple[str, typing.List[str]]]:
